@@ -779,25 +779,8 @@ func (r *rewriter) goStmt(s *ast.GoStmt) ast.Stmt {
 	return &ast.BlockStmt{List: list}
 }
 
-// rangeMap owns the iteration order of a map: under the scheduler (and outside race builds) the loop
-// runs over vrt.MapKeys(m) - canonical order, or every order when the scenario asks for it; the
-// original loop is kept for pass-through and race builds.  Returns nil when the loop is left alone.
-func (r *rewriter) rangeMap(s *ast.RangeStmt, mt *types.Map, labeled *ast.LabeledStmt) ast.Stmt {
-	if s.Tok != token.DEFINE {
-		r.notes = append(r.notes, "map range left alone (assignment form) in "+r.pkg)
-		return nil
-	}
-	switch k := mt.Key().Underlying().(type) {
-	case *types.Basic:
-		if k.Info()&(types.IsString|types.IsInteger) == 0 {
-			return nil
-		}
-	case *types.Chan:
-	default:
-		r.notes = append(r.notes, "map range left alone (key type "+mt.Key().String()+") in "+r.pkg)
-		return nil
-	}
-	// the key type, written with the file's own import names
+// typeExpr writes a type with the file's own import names (nil when a package it needs is not imported).
+func (r *rewriter) typeExpr(t types.Type) ast.Expr {
 	missing := false
 	q := func(p *types.Package) string {
 		if p.Path() == r.tpkg.Path() {
@@ -820,9 +803,43 @@ func (r *rewriter) rangeMap(s *ast.RangeStmt, mt *types.Map, labeled *ast.Labele
 		missing = true
 		return p.Name()
 	}
-	kt, err := parser.ParseExpr(types.TypeString(mt.Key(), q))
+	e, err := parser.ParseExpr(types.TypeString(t, q))
 	if err != nil || missing {
-		r.notes = append(r.notes, "map range left alone (key type not expressible) in "+r.pkg)
+		return nil
+	}
+	return e
+}
+
+// rangeMap owns the iteration order of a map: under the scheduler (and outside race builds) the loop
+// runs over vrt.MapKeys(m) - canonical order, or every order when the scenario asks for it; the
+// original loop is kept for pass-through and race builds.  Returns nil when the loop is left alone.
+func (r *rewriter) rangeMap(s *ast.RangeStmt, mt *types.Map, labeled *ast.LabeledStmt) ast.Stmt {
+	if s.Tok != token.DEFINE {
+		r.notes = append(r.notes, "map range left alone (assignment form) in "+r.pkg)
+		return nil
+	}
+	switch k := mt.Key().Underlying().(type) {
+	case *types.Basic:
+		if k.Info()&(types.IsString|types.IsInteger) == 0 {
+			return nil
+		}
+	case *types.Chan:
+	default:
+		r.notes = append(r.notes, "map range left alone (key type "+mt.Key().String()+") in "+r.pkg)
+		return nil
+	}
+	kt := r.typeExpr(mt.Key())
+	var vt ast.Expr
+	if s.Value != nil {
+		if id, isId := s.Value.(*ast.Ident); !isId || id.Name != "_" {
+			vt = r.typeExpr(mt.Elem())
+			if vt == nil {
+				kt = nil
+			}
+		}
+	}
+	if kt == nil {
+		r.notes = append(r.notes, "map range left alone (key or value type not expressible) in "+r.pkg)
 		return nil
 	}
 	r.used = true
@@ -849,9 +866,18 @@ func (r *rewriter) rangeMap(s *ast.RangeStmt, mt *types.Map, labeled *ast.Labele
 	if s.Value != nil {
 		val = s.Value
 	}
+	// the loop variables are declared once, before the loop, and assigned in every iteration: the module
+	// says go 1.14, i.e. one variable per loop (a closure in the body sees the LAST key, not its own)
+	varDecl := func(name ast.Expr, typ ast.Expr) ast.Stmt {
+		return &ast.DeclStmt{Decl: &ast.GenDecl{Tok: token.VAR, Specs: []ast.Spec{&ast.ValueSpec{Names: []*ast.Ident{name.(*ast.Ident)}, Type: typ}}}}
+	}
+	decls := []ast.Stmt{varDecl(key, kt), varDecl(ok, ast.NewIdent("bool"))}
+	if vt != nil {
+		decls = append(decls, varDecl(val, vt))
+	}
 	body := []ast.Stmt{
-		&ast.AssignStmt{Lhs: []ast.Expr{key}, Tok: token.DEFINE, Rhs: []ast.Expr{&ast.TypeAssertExpr{X: ki, Type: kt}}},
-		&ast.AssignStmt{Lhs: []ast.Expr{val, ok}, Tok: token.DEFINE, Rhs: []ast.Expr{&ast.IndexExpr{X: m, Index: key}}},
+		&ast.AssignStmt{Lhs: []ast.Expr{key}, Tok: token.ASSIGN, Rhs: []ast.Expr{&ast.TypeAssertExpr{X: ki, Type: kt}}},
+		&ast.AssignStmt{Lhs: []ast.Expr{val, ok}, Tok: token.ASSIGN, Rhs: []ast.Expr{&ast.IndexExpr{X: m, Index: key}}},
 		&ast.IfStmt{Cond: &ast.UnaryExpr{Op: token.NOT, X: ok}, Body: &ast.BlockStmt{List: []ast.Stmt{&ast.BranchStmt{Tok: token.CONTINUE}}}},
 		&ast.AssignStmt{Lhs: []ast.Expr{ast.NewIdent("_")}, Tok: token.ASSIGN, Rhs: []ast.Expr{key}},
 	}
@@ -860,7 +886,7 @@ func (r *rewriter) rangeMap(s *ast.RangeStmt, mt *types.Map, labeled *ast.Labele
 	if labeled != nil {
 		loop = &ast.LabeledStmt{Label: labeled.Label, Stmt: loop}
 	}
-	ordered := &ast.BlockStmt{List: []ast.Stmt{define(m, s.X), loop}}
+	ordered := &ast.BlockStmt{List: append(append([]ast.Stmt{define(m, s.X)}, decls...), loop)}
 	r.notes = append(r.notes, "ordered map range over "+types.ExprString(orig.X)+" in "+r.pkg)
 	return &ast.IfStmt{Cond: vrtCall("OrderedMaps"), Body: ordered, Else: &ast.BlockStmt{List: []ast.Stmt{origStmt}}}
 }
@@ -884,6 +910,18 @@ func (r *rewriter) rangeChan(s *ast.RangeStmt, label *ast.Ident) ast.Stmt {
 		recv = &ast.AssignStmt{Lhs: []ast.Expr{key, ok}, Tok: token.ASSIGN, Rhs: []ast.Expr{rx}}
 	} else {
 		recv = &ast.AssignStmt{Lhs: []ast.Expr{key, ok}, Tok: token.DEFINE, Rhs: []ast.Expr{rx}}
+		// one variable per loop (go 1.14 semantics), when the element type can be written down
+		if id, isId := key.(*ast.Ident); isId && id.Name != "_" {
+			if ct, isChan := r.typeOf(s.X).(*types.Chan); isChan {
+				if et := r.typeExpr(ct.Elem()); et != nil {
+					pre = append(pre,
+						&ast.DeclStmt{Decl: &ast.GenDecl{Tok: token.VAR, Specs: []ast.Spec{&ast.ValueSpec{Names: []*ast.Ident{id}, Type: et}}}},
+						&ast.DeclStmt{Decl: &ast.GenDecl{Tok: token.VAR, Specs: []ast.Spec{&ast.ValueSpec{Names: []*ast.Ident{ok}, Type: ast.NewIdent("bool")}}}},
+						&ast.AssignStmt{Lhs: []ast.Expr{ast.NewIdent("_")}, Tok: token.ASSIGN, Rhs: []ast.Expr{id}})
+					recv = &ast.AssignStmt{Lhs: []ast.Expr{key, ok}, Tok: token.ASSIGN, Rhs: []ast.Expr{rx}}
+				}
+			}
+		}
 	}
 	body := []ast.Stmt{exprStmt(vrtCall("Recv", c)), recv, exprStmt(vrtCall("Recvd")),
 		&ast.IfStmt{Cond: &ast.UnaryExpr{Op: token.NOT, X: ok}, Body: &ast.BlockStmt{List: []ast.Stmt{&ast.BranchStmt{Tok: token.BREAK}}}}}
